@@ -278,51 +278,95 @@ macro "inf_crawl" ht:ident hr:ident : tactic => `(tactic| repeat' (first
   | (with_reducible apply EqOn.bind $hr; intro right; apply EqOn.of_pres; pres_crawl)
   | split))
 
-set_option maxHeartbeats 1600000 in
-theorem evalI_inf_eqOn {s0 : St} {fuel : Nat} {op : String} {L L' R R' : Node} (hop : (op == "ASSIGN" || op == "DEFINE") = false)
-    (ht : (R.tokType == "LPAREN") = (R'.tokType == "LPAREN"))
-    (hl : EqOn s0 (eval fuel L) (eval fuel L')) (hr : EqOn s0 (eval fuel R) (eval fuel R')) :
-    EqOn s0 (evalI (fuel+1) (.inf op L R)) (evalI (fuel+1) (.inf op L' R')) := by
+/-- the infix case for one setting of the three operator tests the evaluator makes (`and`, `or`, `|`): with them
+decided the unfolded body is small.  `$ha $ho $hb` are the hypotheses `(op == "AND") = …` etc. -/
+macro "inf_proof" s0:ident fuel:ident op:ident R:ident R':ident hop:ident ht:ident hl:ident hr:ident ha:ident ho:ident hb:ident : tactic => `(tactic| (
   rw [evalI, evalI]
   apply EqOn.get_bind; intro s hs
   refine EqOn.set_bind ?_ ?_
   · exact ⟨hs.1, hs.2.1, hs.2.2⟩
-  have htail : ∀ left : Obj, EqOn s0
-      (do let right ← eval fuel R
+  have htail : ∀ left : Obj, EqOn $s0
+      (do let right ← eval $fuel $R
           if right.isError = true then pure right
           else match left with
             | Obj.array l => do
               let __do_lift ← get
-              noteHazard (op == "PLUS" && decide (l.length > __do_lift.cfg.maxSmallArray)) "large-array-append-shares-capacity" ""
-              evalInfixOp op left right
-            | x => evalInfixOp op left right)
-      (do let right ← eval fuel R'
+              noteHazard ($op == "PLUS" && decide (l.length > __do_lift.cfg.maxSmallArray)) "large-array-append-shares-capacity" ""
+              evalInfixOp $op left right
+            | x => evalInfixOp $op left right)
+      (do let right ← eval $fuel $R'
           if right.isError = true then pure right
           else match left with
             | Obj.array l => do
               let __do_lift ← get
-              noteHazard (op == "PLUS" && decide (l.length > __do_lift.cfg.maxSmallArray)) "large-array-append-shares-capacity" ""
-              evalInfixOp op left right
-            | x => evalInfixOp op left right) := by
+              noteHazard ($op == "PLUS" && decide (l.length > __do_lift.cfg.maxSmallArray)) "large-array-append-shares-capacity" ""
+              evalInfixOp $op left right
+            | x => evalInfixOp $op left right) := by
     intro left
-    apply EqOn.bind hr; intro right
+    apply EqOn.bind $hr; intro right
     apply EqOn.of_pres
     split
     · exact Pres.of_readOnly (ReadOnly.pure _)
     · split
       · exact Pres.bind (Pres.of_readOnly ReadOnly.get) (fun _ => Pres.bind (pres_noteHazard _ _ _) (fun _ => Pres.of_readOnly (evalInfixOp_readOnly _ _ _)))
       · exact Pres.of_readOnly (evalInfixOp_readOnly _ _ _)
-  simp (config := { zeta := true, zetaHave := true }) only [hop, Bool.false_eq_true, if_false]
-  rw [ht]
+  simp (config := { zeta := true, zetaHave := true }) only [$hop:ident, $ha:ident, $ho:ident, $hb:ident, Bool.false_eq_true, if_false, if_true]
+  try rw [$ht:ident]
   split
   · rename_i k _
     by_cases hk : s.steps ≥ k
     · rw [if_pos hk, if_pos hk]; exact EqOn.of_readOnly (ReadOnly.pure _)
     · rw [if_neg hk, if_neg hk]
-      apply EqOn.bind hl; intro left
-      inf_crawl htail hr
-  · apply EqOn.bind hl; intro left
-    inf_crawl htail hr
+      apply EqOn.bind $hl; intro left
+      inf_crawl htail $hr
+  · apply EqOn.bind $hl; intro left
+    inf_crawl htail $hr))
+
+section
+variable {s0 : St} {fuel : Nat} {op : String} {L L' R R' : Node}
+
+theorem evalI_inf_eqOn_and (hop : (op == "ASSIGN" || op == "DEFINE") = false)
+    (ht : (R.tokType == "LPAREN") = (R'.tokType == "LPAREN"))
+    (hl : EqOn s0 (eval fuel L) (eval fuel L')) (hr : EqOn s0 (eval fuel R) (eval fuel R'))
+    (ha : (op == "AND") = true) (ho : (op == "OR") = false) (hb : (op == "BITOR") = false) :
+    EqOn s0 (evalI (fuel+1) (.inf op L R)) (evalI (fuel+1) (.inf op L' R')) := by
+  inf_proof s0 fuel op R R' hop ht hl hr ha ho hb
+
+theorem evalI_inf_eqOn_or (hop : (op == "ASSIGN" || op == "DEFINE") = false)
+    (ht : (R.tokType == "LPAREN") = (R'.tokType == "LPAREN"))
+    (hl : EqOn s0 (eval fuel L) (eval fuel L')) (hr : EqOn s0 (eval fuel R) (eval fuel R'))
+    (ha : (op == "AND") = false) (ho : (op == "OR") = true) (hb : (op == "BITOR") = false) :
+    EqOn s0 (evalI (fuel+1) (.inf op L R)) (evalI (fuel+1) (.inf op L' R')) := by
+  inf_proof s0 fuel op R R' hop ht hl hr ha ho hb
+
+theorem evalI_inf_eqOn_bitor (hop : (op == "ASSIGN" || op == "DEFINE") = false)
+    (ht : (R.tokType == "LPAREN") = (R'.tokType == "LPAREN"))
+    (hl : EqOn s0 (eval fuel L) (eval fuel L')) (hr : EqOn s0 (eval fuel R) (eval fuel R'))
+    (ha : (op == "AND") = false) (ho : (op == "OR") = false) (hb : (op == "BITOR") = true) :
+    EqOn s0 (evalI (fuel+1) (.inf op L R)) (evalI (fuel+1) (.inf op L' R')) := by
+  inf_proof s0 fuel op R R' hop ht hl hr ha ho hb
+
+theorem evalI_inf_eqOn_other (hop : (op == "ASSIGN" || op == "DEFINE") = false)
+    (ht : (R.tokType == "LPAREN") = (R'.tokType == "LPAREN"))
+    (hl : EqOn s0 (eval fuel L) (eval fuel L')) (hr : EqOn s0 (eval fuel R) (eval fuel R'))
+    (ha : (op == "AND") = false) (ho : (op == "OR") = false) (hb : (op == "BITOR") = false) :
+    EqOn s0 (evalI (fuel+1) (.inf op L R)) (evalI (fuel+1) (.inf op L' R')) := by
+  inf_proof s0 fuel op R R' hop ht hl hr ha ho hb
+
+theorem evalI_inf_eqOn (hop : (op == "ASSIGN" || op == "DEFINE") = false)
+    (ht : (R.tokType == "LPAREN") = (R'.tokType == "LPAREN"))
+    (hl : EqOn s0 (eval fuel L) (eval fuel L')) (hr : EqOn s0 (eval fuel R) (eval fuel R')) :
+    EqOn s0 (evalI (fuel+1) (.inf op L R)) (evalI (fuel+1) (.inf op L' R')) := by
+  by_cases ha : (op == "AND") = true
+  · have : op = "AND" := eq_of_beq ha
+    exact evalI_inf_eqOn_and hop ht hl hr ha (by subst this; decide) (by subst this; decide)
+  · by_cases ho : (op == "OR") = true
+    · have : op = "OR" := eq_of_beq ho
+      exact evalI_inf_eqOn_or hop ht hl hr (by simpa using ha) ho (by subst this; decide)
+    · by_cases hb : (op == "BITOR") = true
+      · exact evalI_inf_eqOn_bitor hop ht hl hr (by simpa using ha) (by simpa using ho) hb
+      · exact evalI_inf_eqOn_other hop ht hl hr (by simpa using ha) (by simpa using ho) (by simpa using hb)
+end
 
 /-! ### the arithmetic fragment -/
 
